@@ -119,7 +119,8 @@ Theorem sym_abs_step c h hist s evs c' h' rest :
   | _ => 0 <= rep_as_usize (c_rep0 c') < Z.min (zlen hist) (h_dict h) /\ 1 <= sym_len s <= 273 /\
          hist_rel h' (hcopy hist (rep_as_usize (c_rep0 c')) (Z.to_nat (sym_len s))) /\ h_pos h' = h_pos h + sym_len s
   end /\
-  h_base h' = h_base h /\ h_dict h' = h_dict h /\ h_total h' = h_total h /\ h_data h' = h_data h.
+  h_base h' = h_base h /\ h_dict h' = h_dict h /\ h_total h' = h_total h /\ h_data h' = h_data h /\
+  (s <> SEnd -> h_pos h' <= h_total h).
 Proof.
   intros Hr Hdict Hdata Hreps He.
   pose proof Hr as (Hl & Hb & Hcells). pose proof Hreps as (Hn0 & Hn1 & Hn2 & Hn3).
@@ -131,7 +132,7 @@ Proof.
   destruct s as [b|dist len|idx len|].
   - (* literal *)
     destruct ((h_pos h <? h_total h) && (hget h (h_pos h) =? b)) eqn:Ev; cbn [negb] in He; [|discriminate].
-    apply andb_true_iff in Ev as [_ Hb']. apply Z.eqb_eq in Hb'.
+    apply andb_true_iff in Ev as [Hpt Hb']. apply Z.eqb_eq in Hb'. apply Z.ltb_lt in Hpt.
     apply obind_ok in He as (lbase & Hlb & He).
     apply obind_ok in He as (mb & Hmb & He).
     apply Ok_inj in He. apply pair_inj in He as [He <-]. apply pair_inj in He as [<- <-].
@@ -155,7 +156,7 @@ Proof.
     replace (wrap8 (256 + b)) with b by (unfold wrap8; lia).
     split; [reflexivity|]. split; [unfold reps_nonneg, set_state; cbn; auto|].
     split; [split; [apply hist_rel_lit; assumption | reflexivity]|].
-    unfold h_advance; cbn. auto.
+    unfold h_advance; cbn. repeat split; auto; intros _; lia.
   - (* match *)
     destruct ((2 <=? len) && (len <=? 273) && copy_valid h dist len) eqn:Ev; cbn [negb] in He; [|discriminate].
     apply andb_true_iff in Ev as [Ev Hcv]. apply andb_true_iff in Ev as [Hl1 Hl2]. apply Z.leb_le in Hl1, Hl2.
@@ -176,7 +177,7 @@ Proof.
     split.
     + cbn [sym_len]. split; [lia|]. split; [lia|]. split; [|unfold h_advance; cbn; reflexivity].
       rewrite <- (Z2Nat.id len) at 1 by lia. apply hist_rel_copy; [assumption | lia | assumption].
-    + unfold h_advance; cbn. auto.
+    + unfold h_advance; cbn. repeat split; auto; intros _; lia.
   - (* rep *)
     apply obind_ok in He as (kr & Hkr & He). apply key1_inv in Hkr as (_ & ->).
     apply obind_ok in He as ([ev1 c1] & Hec & He). cbn [fst snd] in He.
@@ -195,7 +196,7 @@ Proof.
     split.
     + cbn [sym_len]. split; [lia|]. split; [lia|]. split; [|unfold h_advance; cbn; reflexivity].
       rewrite <- (Z2Nat.id len) at 1 by lia. apply hist_rel_copy; [assumption | lia | assumption].
-    + unfold h_advance; cbn. auto.
+    + unfold h_advance; cbn. repeat split; auto; intros _; lia.
   - (* end marker *)
     apply obind_ok in He as (kr & Hkr & He). apply key1_inv in Hkr as (_ & ->).
     apply obind_ok in He as ([ev1 c1] & Hec & He).
@@ -208,7 +209,7 @@ Proof.
     2:{ intros r. eapply end_marker_roundtrip; [|exact Hec]. assumption. }
     rewrite run_trace_ret. cbn [fst snd sym_res].
     split; [reflexivity|]. split; [rewrite Hc1; unfold reps_nonneg; cbn; repeat split; lia|].
-    split; [split; [reflexivity | rewrite Hc1; reflexivity]|]. auto.
+    split; [split; [reflexivity | rewrite Hc1; reflexivity]|]. repeat split; auto. intros X; congruence.
 Qed.
 
 (* ---- a whole symbol list ------------------------------------------------------------------- *)
@@ -252,7 +253,8 @@ Proof.
 Qed.
 
 Theorem aproduce_syms : forall syms c h hist dict pd n evs c' h' rest,
-  no_end syms -> hist_rel h hist -> h_dict h <= 2147483648 -> h_dict h <= dict -> data_ok h -> reps_nonneg c ->
+  no_end syms -> hist_rel h hist -> h_dict h <= 2147483648 ->
+  (h_dict h <= dict \/ h_total h - h_base h <= dict) -> data_ok h -> reps_nonneg c ->
   enc_syms c h syms = Ok (evs, c', h') ->
   Z.of_nat n = h_pos h' - h_pos h ->
   exists hist' pd',
@@ -272,7 +274,9 @@ Proof.
     assert (Hs_ne : s <> SEnd) by (apply Hne; left; reflexivity).
     assert (Hne' : no_end r) by (intros x Hx; apply Hne; right; assumption).
     destruct (sym_abs_step c h hist s e1 c1 h1 (e2 ++ rest) Hr Hd Hdata Hreps Hs)
-      as (Htr & Hreps1 & Hshape & Hb1 & Hd1 & Ht1 & Hda1).
+      as (Htr & Hreps1 & Hshape & Hb1 & Hd1 & Ht1 & Hda1 & Hpt1).
+    specialize (Hpt1 Hs_ne).
+    assert (Hdd1 : h_dict h1 <= dict \/ h_total h1 - h_base h1 <= dict) by (rewrite Hd1, Ht1, Hb1; exact Hdd).
     assert (Hdata1 : data_ok h1) by (intros i; unfold hget; rewrite Hda1; apply Hdata).
     rewrite <- app_assoc.
     (* how far the rest advances *)
@@ -293,7 +297,7 @@ Proof.
       destruct Hshape as (Hdist & Hlen & Hr1 & Hp1). cbn [sym_len] in *.
       set (d := rep_as_usize (c_rep0 c1)) in *.
       unfold a_full; cbn [a_hist a_dict].
-      destruct (Z.leb_spec (Z.min (zlen hist) dict) d); [lia|].
+      destruct (Z.leb_spec (Z.min (zlen hist) dict) d); [destruct Hr as (Hzl & _); lia|].
       destruct (Z.leb_spec len 0); [lia|].
       rewrite (aproduce_pending (Z.to_nat (len - 1)) k) by (cbn [a_pend_len]; lia).
       cbn [a_coder a_hist a_dict a_pend_len a_pend_dist].
@@ -308,7 +312,7 @@ Proof.
       destruct Hshape as (Hdist & Hlen & Hr1 & Hp1). cbn [sym_len] in *.
       set (d := rep_as_usize (c_rep0 c1)) in *.
       unfold a_full; cbn [a_hist a_dict].
-      destruct (Z.leb_spec (Z.min (zlen hist) dict) d); [lia|].
+      destruct (Z.leb_spec (Z.min (zlen hist) dict) d); [destruct Hr as (Hzl & _); lia|].
       destruct (Z.leb_spec len 0); [lia|].
       rewrite (aproduce_pending (Z.to_nat (len - 1)) k) by (cbn [a_pend_len]; lia).
       cbn [a_coder a_hist a_dict a_pend_len a_pend_dist].
